@@ -82,7 +82,7 @@ func (p *Program) ensureModsets(u *Universe) {
 		for _, fn := range fns {
 			mi := p.mods[fn]
 			for _, c := range mi.calls {
-				if mi.ms.merge(p.modsetNoFix(u, c)) {
+				if mi.ms.merge(p.declaredOrInferred(u, c)) {
 					changed = true
 				}
 			}
@@ -112,6 +112,63 @@ func (p *Program) modsetNoFix(u *Universe, fn *ssa.Function) *ModSet {
 		return mi.ms
 	}
 	return p.externMods(u, fn, calleeName(fn))
+}
+
+// declaredOrInferred: a declared frame (assigns / pure) is what callers rely on; the
+// declaration itself is an obligation of the callee (assigns@...) or a listed assumption.
+func (p *Program) declaredOrInferred(u *Universe, fn *ssa.Function) *ModSet {
+	if c := p.contracts[calleeName(fn)]; c != nil && (c.HasAssign || c.Pure) {
+		return p.assignsModSet(u, c)
+	}
+	return p.modsetNoFix(u, fn)
+}
+
+// autoPure: a module function whose parameters and results are all scalars and which
+// writes no pre-existing object is a deterministic function of its arguments, provided
+// package-level state is immutable (C12) and it uses no clock/randomness (C11).
+func (p *Program) autoPure(u *Universe, fn *ssa.Function) bool {
+	if fn == nil || len(fn.Blocks) == 0 || fn.Package() == nil || !inModule(fn.Package().Pkg) {
+		return false
+	}
+	if v, ok := p.pureCache[fn]; ok {
+		return v
+	}
+	scalar := func(t types.Type) bool {
+		b, ok := t.Underlying().(*types.Basic)
+		return ok && b.Kind() != types.UnsafePointer
+	}
+	res := true
+	sig := fn.Signature
+	if sig.Recv() != nil || len(fn.FreeVars) > 0 || sig.Results().Len() == 0 {
+		res = false
+	}
+	for i := 0; res && i < sig.Params().Len(); i++ {
+		if !scalar(sig.Params().At(i).Type()) {
+			res = false
+		}
+	}
+	for i := 0; res && i < sig.Results().Len(); i++ {
+		if !scalar(sig.Results().At(i).Type()) {
+			res = false
+		}
+	}
+	if res {
+		p.ensureModsets(u)
+		ms := p.modsetNoFix(u, fn)
+		if ms.all {
+			res = false
+		}
+		for _, l := range ms.vars {
+			if l > 1 {
+				res = false
+			}
+		}
+	}
+	if p.pureCache == nil {
+		p.pureCache = map[*ssa.Function]bool{}
+	}
+	p.pureCache[fn] = res
+	return res
 }
 
 // modset is what callers may assume about a callee's writes.
